@@ -46,7 +46,9 @@ def child_env(prop: str, hashseed: str = "0") -> dict:
     env.setdefault("NUMBA_THREADING_LAYER", "workqueue")
     if prop != "C19":
         env["NUMBA_NUM_THREADS"] = "1"
-    cache = os.path.join(VERIF, ".cache", "numba-" + tree_hash(repo))
+    # VERIF_NUMBA_CACHE: dev tooling running many scratch trees side by side gives each its own
+    # directory (and turns pruning off) so that concurrent drivers never prune one another
+    cache = os.environ.get("VERIF_NUMBA_CACHE") or os.path.join(VERIF, ".cache", "numba-" + tree_hash(repo))
     os.makedirs(cache, exist_ok=True)
     env["NUMBA_CACHE_DIR"] = cache
     env["SIGPYPROC_VERIF"] = "1"
@@ -57,7 +59,7 @@ def child_env(prop: str, hashseed: str = "0") -> dict:
 
 def prune_caches(keep: str) -> None:
     base = os.path.join(VERIF, ".cache")
-    if not os.path.isdir(base):
+    if not os.path.isdir(base) or os.environ.get("VERIF_NUMBA_CACHE"):
         return
     ents = [e for e in os.listdir(base) if e.startswith("numba-") and os.path.join(base, e) != keep]
     ents.sort(key=lambda e: os.path.getmtime(os.path.join(base, e)))
